@@ -31,8 +31,8 @@ func inAnyLoop(b *ssa.BasicBlock) bool { return innermostLoop(b) != nil }
 
 // loopsAllowed: call sites that legitimately sit in a loop.
 var loopsAllowed = map[string]string{
-	"queryer.(*MultiOpQueryer).queryBatch | queryer.(*MultiOpQueryer).fetchFile": "one multipart request per input that carries files: each iteration sends a different request exactly once",
-	"executor.(*DepthExecutorManager).Execute | executor.(*DepthExecutor).Execute":  "one pass per plan depth (checked separately: the depth variable strictly increases)",
+	"queryer.(*MultiOpQueryer).queryBatch | queryer.(*MultiOpQueryer).fetchFile":   "one multipart request per input that carries files: each iteration sends a different request exactly once",
+	"executor.(*DepthExecutorManager).Execute | executor.(*DepthExecutor).Execute": "one pass per plan depth (checked separately: the depth variable strictly increases)",
 }
 
 func ruleMultiplicity(r *Run) {
